@@ -106,7 +106,11 @@ def translate(src, vocab, targets, header, requires, shapes=None):
         except KeyError as e:
             raise TranslateError(str(e))
         try:
-            text, shape = em.emit_fn(fn, impl_of, coq_name, opts.get("monadic", False))
+            if opts.get("rec_fuel") is not None:
+                # a function that calls itself: Fixpoint over a fuel argument (emit_fn)
+                text, shape = em.emit_fn(fn, impl_of, coq_name, opts.get("monadic", False), rec_fuel=opts["rec_fuel"])
+            else:
+                text, shape = em.emit_fn(fn, impl_of, coq_name, opts.get("monadic", False))
         except EmitError as e:
             raise TranslateError("%s%s: %s" % ((impl_of + "::") if impl_of else "", fname, e))
         key = opts.get("key") or ((impl_of + "::" if impl_of else "") + fname)
